@@ -30,12 +30,17 @@ func (n *Node) AccountInfo(addr sdk.AccAddress) (num, seq uint64, ok bool) {
 
 // SignTx builds a SIGN_MODE_DIRECT tx carrying msgs, signed by signer with the given number/sequence.
 func SignTx(chainID string, signer *Account, accNum, seq uint64, memo string, msgs ...sdk.Msg) ([]byte, error) {
+	return SignTxGas(chainID, signer, accNum, seq, memo, 1_000_000_000, msgs...)
+}
+
+// SignTxGas is SignTx with an explicit gas limit (a transaction may run out of gas at any point of its execution).
+func SignTxGas(chainID string, signer *Account, accNum, seq uint64, memo string, gas uint64, msgs ...sdk.Msg) ([]byte, error) {
 	b := encCfg.TxConfig.NewTxBuilder()
 	if err := b.SetMsgs(msgs...); err != nil {
 		return nil, err
 	}
 	b.SetMemo(memo)
-	b.SetGasLimit(1_000_000_000)
+	b.SetGasLimit(gas)
 	b.SetFeeAmount(sdk.NewCoins())
 	sig := signing.SignatureV2{
 		PubKey:   signer.Priv.PubKey(),
